@@ -9,6 +9,7 @@ import (
 	"math"
 	"slices"
 	"strings"
+	"time"
 
 	"github.com/honeycombio/refinery/config"
 	jsoniter "github.com/json-iterator/go"
@@ -952,7 +953,7 @@ func (p Payload) MarshalMsg(buf []byte) ([]byte, error) {
 
 		buf = msgp.AppendString(buf, key)
 		var err error
-		buf, err = msgp.AppendIntf(buf, value)
+		buf, err = appendMemoizedValue(buf, value)
 		if err != nil {
 			return buf, err
 		}
@@ -1004,6 +1005,39 @@ func (p Payload) MarshalMsg(buf []byte) ([]byte, error) {
 	buf[startLen+2] = byte(actualCount)
 
 	return buf, nil
+}
+
+// appendMemoizedValue is msgp.AppendIntf, except that time.Time values, at any
+// depth, are written with the standard messagepack timestamp extension (-1)
+// they were received in. msgp.AppendIntf would use AppendTime(), whose
+// library-specific extension (5) is unreadable for everything but tinylib/msgp.
+func appendMemoizedValue(buf []byte, value any) ([]byte, error) {
+	switch v := value.(type) {
+	case time.Time:
+		return msgp.AppendTimeExt(buf, v), nil
+	case map[string]any:
+		buf = msgp.AppendMapHeader(buf, uint32(len(v)))
+		for key, elem := range v {
+			buf = msgp.AppendString(buf, key)
+			var err error
+			buf, err = appendMemoizedValue(buf, elem)
+			if err != nil {
+				return buf, err
+			}
+		}
+		return buf, nil
+	case []any:
+		buf = msgp.AppendArrayHeader(buf, uint32(len(v)))
+		for _, elem := range v {
+			var err error
+			buf, err = appendMemoizedValue(buf, elem)
+			if err != nil {
+				return buf, err
+			}
+		}
+		return buf, nil
+	}
+	return msgp.AppendIntf(buf, value)
 }
 
 // TODO implement Sizer so buffer can be correctly presized
